@@ -271,7 +271,7 @@ pub mod env {
 /// the baton is held). Threads started by any other thread are ordinary threads.
 pub mod thread {
     pub use rstd::thread::{
-        available_parallelism, current, panicking, park, park_timeout, AccessError, LocalKey, Result, Thread, ThreadId,
+        available_parallelism, panicking, AccessError, LocalKey, Result, ThreadId,
     };
 
     use fqcore::__fqsim::{blocked, ctl, TASK_DONE, TASK_ENTER, TASK_EXIT, TASK_SPAWN};
@@ -297,9 +297,126 @@ pub mod thread {
         rstd::thread::yield_now();
     }
 
+    // ------------------------------------------------------------ park / unpark
+    // `Thread` is our own handle (std's plus the park token the simulator can see): `park` is a
+    // "blocked" scheduling point until somebody has called `unpark` on this thread's handle, a
+    // spurious return is a seeded choice (std documents it as legal), `park_timeout` runs on the
+    // simulated clock. The token of the real thread is set as well, so that a thread that is not
+    // (or no longer) a simulated task parks and wakes in the kernel as usual.
+    struct ParkState {
+        token: rstd::sync::atomic::AtomicBool,
+    }
+
+    static PARKS: rstd::sync::Mutex<Option<rstd::collections::HashMap<ThreadId, rstd::sync::Arc<ParkState>>>> = rstd::sync::Mutex::new(None);
+
+    fn park_state(id: ThreadId) -> rstd::sync::Arc<ParkState> {
+        let mut g = PARKS.lock().unwrap_or_else(|e| e.into_inner());
+        g.get_or_insert_with(rstd::collections::HashMap::new)
+            .entry(id)
+            .or_insert_with(|| rstd::sync::Arc::new(ParkState { token: rstd::sync::atomic::AtomicBool::new(false) }))
+            .clone()
+    }
+
+    fn forget_park_state(id: ThreadId) {
+        if let Ok(mut g) = PARKS.lock() {
+            if let Some(m) = g.as_mut() {
+                m.remove(&id);
+            }
+        }
+    }
+
+    #[derive(Clone)]
+    pub struct Thread {
+        real: real::Thread,
+        st: rstd::sync::Arc<ParkState>,
+    }
+
+    impl Thread {
+        fn of(real: real::Thread) -> Thread {
+            let st = park_state(real.id());
+            Thread { real, st }
+        }
+        pub fn id(&self) -> ThreadId {
+            self.real.id()
+        }
+        pub fn name(&self) -> Option<&str> {
+            self.real.name()
+        }
+        pub fn unpark(&self) {
+            fqcore::__fqsim::point("sync:unpark");
+            self.st.token.store(true, rstd::sync::atomic::Ordering::SeqCst);
+            self.real.unpark();
+        }
+    }
+
+    impl rstd::fmt::Debug for Thread {
+        fn fmt(&self, f: &mut rstd::fmt::Formatter<'_>) -> rstd::fmt::Result {
+            rstd::fmt::Debug::fmt(&self.real, f)
+        }
+    }
+
+    pub fn current() -> Thread {
+        Thread::of(real::current())
+    }
+
+    fn park_sim(timeout: Option<rstd::time::Duration>) {
+        use fqcore::__fqsim::{clock, is_task, point, TASK_RAND};
+        use rstd::sync::atomic::Ordering::SeqCst;
+        let st = park_state(real::current().id());
+        if !is_task() {
+            match timeout {
+                Some(d) => real::park_timeout(d),
+                None => real::park(),
+            }
+            st.token.store(false, SeqCst);
+            return;
+        }
+        let deadline = timeout.map(|d| clock(0).unwrap_or(0).saturating_add(d.as_nanos().min(u64::MAX as u128) as u64));
+        point("sync:park");
+        loop {
+            if st.token.swap(false, SeqCst) {
+                return;
+            }
+            if is_task() {
+                // "may return spuriously" (std::thread::park)
+                if ctl(TASK_RAND, 48) == 47 {
+                    return;
+                }
+                if let Some(dl) = deadline {
+                    if clock(0).map(|n| n >= dl).unwrap_or(true) {
+                        return;
+                    }
+                }
+            }
+            if !blocked("sync:park_blocked") {
+                // nobody the scheduler knows can run, or released from the simulation: wait in
+                // the kernel for a moment (an unpark sets the real token too)
+                real::park_timeout(rstd::time::Duration::from_millis(2));
+                if !is_task() {
+                    st.token.store(false, SeqCst);
+                    return; // a spurious return is legal; callers re-check their condition
+                }
+            }
+        }
+    }
+
+    pub fn park() {
+        park_sim(None)
+    }
+
+    pub fn park_timeout(dur: rstd::time::Duration) {
+        park_sim(Some(dur))
+    }
+
+    #[allow(deprecated)]
+    pub fn park_timeout_ms(ms: u32) {
+        park_sim(Some(rstd::time::Duration::from_millis(ms as u64)))
+    }
+
     struct ExitGuard(u64);
     impl Drop for ExitGuard {
         fn drop(&mut self) {
+            forget_park_state(real::current().id());
             if self.0 != 0 {
                 ctl(TASK_EXIT, self.0);
             }
@@ -329,6 +446,7 @@ pub mod thread {
     pub struct JoinHandle<T> {
         real: real::JoinHandle<T>,
         token: u64,
+        thread: Thread,
     }
 
     impl<T> JoinHandle<T> {
@@ -337,7 +455,7 @@ pub mod thread {
             self.real.join()
         }
         pub fn thread(&self) -> &Thread {
-            self.real.thread()
+            &self.thread
         }
         pub fn is_finished(&self) -> bool {
             fqcore::__fqsim::point("sync:is_finished");
@@ -383,7 +501,10 @@ pub mod thread {
             fqcore::__fqsim::point("sync:spawn");
             let token = ctl(TASK_SPAWN, 0);
             match self.0.spawn(wrap(token, f)) {
-                Ok(real) => Ok(JoinHandle { real, token }),
+                Ok(real) => {
+                    let thread = Thread::of(real.thread().clone());
+                    Ok(JoinHandle { real, token, thread })
+                }
                 Err(e) => {
                     if token != 0 {
                         ctl(TASK_EXIT, token);
@@ -403,7 +524,10 @@ pub mod thread {
                 scope.tokens.lock().unwrap_or_else(|e| e.into_inner()).push(token);
             }
             match self.0.spawn_scoped(scope.real, wrap(token, f)) {
-                Ok(real) => Ok(ScopedJoinHandle { real, token }),
+                Ok(real) => {
+                    let thread = Thread::of(real.thread().clone());
+                    Ok(ScopedJoinHandle { real, token, thread })
+                }
                 Err(e) => {
                     if token != 0 {
                         ctl(TASK_EXIT, token);
@@ -428,6 +552,7 @@ pub mod thread {
     pub struct ScopedJoinHandle<'scope, T> {
         real: real::ScopedJoinHandle<'scope, T>,
         token: u64,
+        thread: Thread,
     }
 
     impl<'scope, T> ScopedJoinHandle<'scope, T> {
@@ -436,7 +561,7 @@ pub mod thread {
             self.real.join()
         }
         pub fn thread(&self) -> &Thread {
-            self.real.thread()
+            &self.thread
         }
         pub fn is_finished(&self) -> bool {
             fqcore::__fqsim::point("sync:is_finished");
